@@ -51,7 +51,20 @@ Definition expandN (tbl : list str) (idx : list N) : list str := map (fun i => n
 (* what the harness prints for one (preset, column): the names of the selection, then per transformer
    (keep_spec, keep_code, distinct, maxcount, nancount, rows) *)
 Definition keep_row (l : list str) : bool * bool * (nat * nat * nat * nat) :=
-  (keep_spec l, keep_code l, (distinct l, maxcount l, count nan_str l, length l)).
+  let d := distinct l in
+  let m := maxcount l in
+  let c := count nan_str l in
+  let n := length l in
+  (keep_spec_of d m c n,
+   keep_gen_of distinct_op distinct_rhs maj_op max_maj_support nan_op nan_prop_support d m (count nan_literal l) n,
+   (d, m, c, n)).
+
+(* the same verdict from precomputed rows: names of the selection whose row says keep *)
+Definition names_from_rows (preset col : str) (keeps : list bool) : list str :=
+  match select preset with
+  | Some sel => map (fun p => col ++ fst (fst p)) (filter (fun p => snd p) (combine sel keeps))
+  | None => []
+  end.
 
 (* encoders so that only digits, brackets and booleans are printed *)
 Definition sel_names (preset : str) : option (list str) :=
